@@ -20,7 +20,8 @@ RULE = (
     "that very object and the operation must still complete with the baseline result. The same three checks run over scripted "
     "scenarios for every other public operation (lru_cache, cached_property with/without lock, contextmanager, ContextDecorator, "
     "ExitStack, closing, nullcontext, tee with/without lock, groupby, borrow, scoped_iter, any_iter, await_each, apply, sync, "
-    "anext, iter). A subprocess imports and uses the library with asyncio's loop accessors patched to raise. "
+    "anext, iter) and, with two or three hand-interleaved tasks, for tee closed while a child is busy, tee with a contended user "
+    "lock, overlapping lru_cache calls and cached_property with a contended lock. A subprocess imports and uses the library with asyncio's loop accessors patched to raise. "
     "non-trivial = at least one suspension; distinct by case content"
 )
 EXHAUSTIVE = {"quick": True, "thorough": True}
@@ -46,6 +47,8 @@ def cases(tier, rng):
     yield {"family": "noloop", "tool": "subprocess", "srcs": [], "params": {}}
     for name in sorted(SCENARIOS):
         yield {"family": "scenario", "tool": name, "srcs": [], "params": {}}
+    for name in sorted(CONC):
+        yield {"family": "conc", "tool": name, "srcs": [], "params": {}}
     k = 0
     for case in s1.base_cases(tier, rng, ["agen", "aobj", "iter", "list", "aobj_nc"], s1.cons_exhaust, maxlen=L):
         if case["tool"] == "islice" and (case["params"].get("step", 1) > 1 or (case["params"].get("stop") or 0) > 2):
@@ -269,6 +272,108 @@ async def _sc_iter_anext():
     return out
 
 
+# ---- family 3: two tasks interleaved by hand: while task A is suspended inside a user awaitable, task B runs -------
+
+
+def _conc_tee_close_busy():
+    """B closes the tee while A is suspended inside the source"""
+    t = A.tee(_agen(3), n=2)
+
+    async def a():
+        return [(await A.anext(t[0])).id]
+
+    async def b():
+        try:
+            await t.aclose()
+            return "closed"
+        except RuntimeError:
+            return "busy"
+    return [a(), b()], [0, 1, 0, 0, 1, 1]
+
+
+def _conc_tee_lock():
+    lock = _Lock()
+    t = A.tee(_agen(2), n=2, lock=lock)
+
+    async def reader(i):
+        return [x.id async for x in t[i]]
+    return [reader(0), reader(1)], [0, 1, 0, 1, 0, 1] * 8
+
+
+def _conc_lru_overlap():
+    @A.lru_cache(maxsize=1)
+    async def f(x):
+        await Susp(["u", "lru", x])
+        return x
+
+    async def c(x):
+        return [await f(x), await f(x)]
+    return [c(1), c(2), c(1)], [0, 1, 2, 1, 0, 2] * 4
+
+
+def _conc_cached_property_lock():
+    class C:
+        @A.cached_property(_Lock)
+        async def v(self):
+            await Susp(["u", "getter"])
+            return 7
+    o = C()
+
+    async def c():
+        return await o.v
+    return [c(), c(), c()], [0, 1, 2, 0, 1, 2] * 6
+
+
+CONC = {"conc_tee_close_busy": _conc_tee_close_busy, "conc_tee_lock": _conc_tee_lock, "conc_lru_overlap": _conc_lru_overlap,
+        "conc_cached_property_lock": _conc_cached_property_lock}
+
+
+def _observe_conc(case):
+    world.RESILIENT[0] = False
+    del world.SUSP_LOG[:]
+    coros, schedule = CONC[case["tool"]]()
+    done = [None] * len(coros)
+    tokens, foreign = [], []
+    pending_reply = [None] * len(coros)
+    steps = 0
+    for i in schedule + list(range(len(coros))) * 200:
+        if all(d is not None for d in done):
+            break
+        if done[i] is not None:
+            continue
+        steps += 1
+        if steps > 3000:
+            break
+        try:
+            tok = coros[i].send(pending_reply[i])
+        except StopIteration as stop:
+            done[i] = ["ok", _canon(stop.value)]
+            continue
+        except BaseException as exc:  # noqa: B036
+            done[i] = ["exc", exc_name(exc)]
+            continue
+        tokens.append(tok)
+        if not (isinstance(tok, list) and tok and tok[0] == "u"):
+            foreign.append([i, repr(tok)[:60]])
+        pending_reply[i] = ("r", tok)
+    for c in coros:
+        c.close()
+    bad = [e for e in world.SUSP_LOG if e[0] == "reply" and e[2] != ("r", e[1])]
+    user = [e[1] for e in world.SUSP_LOG if e[0] == "susp"]
+    del world.SUSP_LOG[:]
+    issues = []
+    if foreign:
+        issues.append(("foreign-object-reached-loop", {"foreign": foreign[:4]}))
+    if [t for t in tokens if isinstance(t, list) and t and t[0] == "u"] != user:
+        issues.append(("token-order-differs", {"driver": tokens[:8], "user": user[:8]}))
+    if bad:
+        issues.append(("reply-misrouted", {"bad": bad[:3]}))
+    if any(d is None for d in done):
+        issues.append(("task-never-finishes", {"done": done, "steps": steps}))
+    return {"tokens": tokens[:50], "log_issues": issues, "throws": [], "done": done,
+            "async": {"out": ["returned", ["n"]], "vis": []}}
+
+
 SCENARIOS = {
     "lru_cache": _sc_lru, "cached_property": _sc_cached_property, "cached_property_lock": _sc_cached_property_lock,
     "contextmanager": _sc_contextmanager, "decorator": _sc_decorator, "exitstack": _sc_exitstack,
@@ -357,6 +462,8 @@ def observe(case):
                 "async": {"out": ["returned", ["n"]], "vis": []}}
     if fam == "scenario":
         return _observe_scenario(case)
+    if fam == "conc":
+        return _observe_conc(case)
     return _observe_tool(case)
 
 
